@@ -46,6 +46,13 @@ CLAIMS = {
          "arguments. Not yet proved: the general round trip compile(render(tree)) = tree. The run evaluates that round trip on the implementation for "
          "every tree with <= 2 operators over the complete operator set in both renderings and for random deeper trees, compares the model's parser "
          "with the real one on each text, and covers all chain lengths 2-64, prefix runs 1-6 and nested macros."),
+ "C12": ("PARTIAL. Theorems about the literal decoders (unquote_string / unquote_bytes transcribed): for every string of scalar values, both "
+         "one-quote styles and every per-character choice among verbatim, simple escape, \\x, \\X, octal, \\u and \\U spellings the literal decodes to "
+         "exactly that string (bytes: \\x/\\X/octal are single bytes, everything else its UTF-8); raw one-quote literals are verbatim; the escape "
+         "table; general lemmas for the numeric escapes; invalid escapes reject. The triple-quoted forms are not yet covered by a theorem. "
+         "The run checks, on the implementation, that each literal denotes the intended characters for every escape in every style and for random "
+         "strings in all 16 styles, and compares with the model. Known finding K01: raw triple-quoted literals containing U+0000/U+10FFFF are "
+         "rejected (ANTLR runtime wildcard)."),
  "C06": ("Theorems that Eval.eval (a structural Fixpoint transcribing Value::resolve) returns the left operand's outcome "
          "and host-call log alone when && / || are decided by it, evaluates exactly one branch of ?:, and propagates a "
          "left error - for every context and operand expression, hence at every depth and inside macro bodies. Tied to the "
